@@ -291,7 +291,14 @@ func c03run(s *Sexp) string {
 		optp = append(optp, fun.WorkerGroupConfIncludeContextErrors())
 	}
 	if excl {
-		optp = append(optp, fun.WorkerGroupConfAddExcludeErrors(errC03Excluded))
+		// the exclusion list is built in two steps (two providers), in either order: every entry
+		// added by an earlier step must still be excluded afterwards
+		other := errors.New("c03-other-excluded")
+		if len(optp)%2 == 0 {
+			optp = append(optp, fun.WorkerGroupConfAddExcludeErrors(errC03Excluded), fun.WorkerGroupConfAddExcludeErrors(other))
+		} else {
+			optp = append(optp, fun.WorkerGroupConfAddExcludeErrors(other), fun.WorkerGroupConfAddExcludeErrors(errC03Excluded))
+		}
 	}
 	var coll *erc.Collector
 	if custom {
